@@ -269,6 +269,17 @@ func emStructured(pc *pcase) []smut {
 	return out
 }
 
+var nmCache sync.Map
+
+func nearMiss(name string) *pkey {
+	if v, ok := nmCache.Load(name); ok {
+		return v.(*pkey)
+	}
+	k := loadKey(name)
+	nmCache.Store(name, k)
+	return k
+}
+
 func orderOf(k *pkey) *big.Int {
 	switch k.fam {
 	case famECDSA:
@@ -323,7 +334,29 @@ func buildCase(c *ev.Ctx, keys []*pkey, k *pkey, a algInfo, mi int, msg []byte) 
 		if ok.fam == k.fam {
 			kind = "other-key(same type)"
 		}
+		if strings.TrimSuffix(ok.name, "aug") == strings.TrimSuffix(k.name, "aug") {
+			// the SAME key in its other Go form (*ecdsa.PublicKey / *x509.AugmentedECDSA): must verify
+			pc.st = append(pc.st, smut{kind: "same-key(other Go type)", label: "verify with key " + ok.name, key: ok, alg: a, msg: msg, sig: sig, mall: true})
+			continue
+		}
 		pc.st = append(pc.st, smut{kind: kind, label: "verify with key " + ok.name, key: ok, alg: a, msg: msg, sig: sig})
+	}
+	// near-miss keys: the genuine key with one component changed to another VALID value.
+	if !strings.HasPrefix(k.name, "nm-") {
+		var nm *pkey
+		var what string
+		base := strings.TrimSuffix(k.name, "aug")
+		switch k.fam {
+		case famRSA:
+			nm, what = nearMiss("nm-e:"+base), "same modulus, exponent e+2"
+		case famECDSA:
+			nm, what = nearMiss("nm-negy:"+base), "point (x, p-y)"
+		case famDSA:
+			nm, what = nearMiss("nm-y:"+base), "same (p,q,g), y*g mod p"
+		}
+		if nm != nil {
+			pc.st = append(pc.st, smut{kind: "near-miss-key", label: "verify with " + nm.name + " (" + what + ")", key: nm, alg: a, msg: msg, sig: sig})
+		}
 	}
 	for _, oa := range allAlgs {
 		if oa.alg == a.alg {
@@ -427,9 +460,9 @@ func judge(c *ev.Ctx, st *primStats, pc string, baseScheme string, m smut, basel
 			SigHex: hex.EncodeToString(m.sig), Mutation: m.label, Genuine: pc, Zcrypto: zclass, Oracle: o, Baseline: baseline, Mall: m.mall}
 	}
 	if pan != "" {
-		// a panic is not a verdict; C01 owns panics, it is surfaced as an observation.
-		st.h["z:panic"]++
-		c.Set("observation_panic_in_CheckSignatureFromKey", map[string]any{"where": pan, "witness": wit(boolS(sok))})
+		// "verifies" / "verification fails" are the only two outcomes the statement knows: a panic is neither.
+		st.h["VIOLATION: panic in CheckSignatureFromKey"]++
+		violPrim(c, "prim "+baseScheme+": "+pan, wit(boolS(sok)))
 		return
 	}
 	if zok || strings.Contains(zclass, "erification") {
@@ -452,14 +485,11 @@ func judge(c *ev.Ctx, st *primStats, pc string, baseScheme string, m smut, basel
 		st.h["z-reject: "+zclass]++
 	case zok && !sok:
 		if m.alg.usable && m.alg.fam != m.key.fam && primitive(m.key, m.alg, m.msg, m.sig) {
-			// The claimed algorithm belongs to another key family; zcrypto lets the key type pick the
-			// primitive and takes only the hash from the algorithm. The standard-library primitive on the
-			// same key, digest and signature accepts, so this is not counted as a forged acceptance.
+			// "fails whenever ... the claimed algorithm is changed": the claimed algorithm belongs to another
+			// key family (no key of this type can sign under it) and the signature is still accepted because
+			// only the hash was taken from it. Named apart from forged acceptances.
 			st.lenient++
-			st.h["accepted: algorithm of another key family, same digest; stdlib primitive on (key,digest,sig) accepts"]++
-			if len(st.lenSmp) < 2 {
-				st.lenSmp = append(st.lenSmp, wit("strict=reject primitive=accept"))
-			}
+			violPrim(c, fmt.Sprintf("prim %s: genuine signature still ACCEPTED after the claimed algorithm is changed to one of another key family (%s) with the same hash", baseScheme, m.alg.scheme()), wit("strict=reject primitive=accept"))
 			return
 		}
 		violPrim(c, fmt.Sprintf("prim %s: %s ACCEPTED by CheckSignatureFromKey, rejected by the standard library", baseScheme, kind), wit("reject"))
@@ -480,11 +510,13 @@ func judge(c *ev.Ctx, st *primStats, pc string, baseScheme string, m smut, basel
 
 func quickKeys() []string {
 	return []string{"rsa1024", "rsa1024b", "rsa1025", "rsa2048", "rsa1024e33",
-		"p224", "p256", "p256b", "p384", "p521", "ed-a", "ed-b", "dsa1024", "dsa2048"}
+		"p224", "p256", "p256b", "p384", "p521", "ed-a", "ed-b", "dsa1024", "dsa2048",
+		"p256aug", "dsa2048q224"}
 }
 
 func thoroughKeys() []string {
-	return append(quickKeys(), "rsa2048b", "rsa3072", "rsa4096", "rsa1024e256", "rsa1024e3", "rsa1024e31", "p224b", "p384b", "p521b")
+	return append(quickKeys(), "rsa2048b", "rsa3072", "rsa4096", "rsa1024e256", "rsa1024e3", "rsa1024e31", "p224b", "p384b", "p521b",
+		"p224aug", "p384aug", "p521aug")
 }
 
 func runPrim(c *ev.Ctx) {
@@ -634,12 +666,9 @@ func runPrim(c *ev.Ctx) {
 		"keys": len(keys), "algorithms": len(allAlgs), "messages": len(msgs),
 		"genuine_cases": len(live), "genuine_cases_by_scheme": perFam, "mutants": tot.mutCount,
 		"mutants_valid_per_stdlib_and_accepted":       tot.validMut,
-		"accepted_cross_family_algorithm_same_digest": tot.lenient,
+		"accepted_cross_family_algorithm_same_digest(violations)": tot.lenient,
 		"stricter_than_stdlib":                        tot.stricter,
 	})
-	if len(tot.lenSmp) > 0 {
-		c.Set("prim_sample_cross_family_accept", tot.lenSmp[0])
-	}
 	if len(tot.strictSmp) > 0 {
 		c.Set("prim_sample_stricter_than_stdlib", tot.strictSmp[0])
 	}
@@ -659,9 +688,8 @@ func runPrim(c *ev.Ctx) {
 		p, m, site := ev.Try(func() { err = x509.CheckSignatureFromKey(pub, x509.Ed25519Sig, om, osig) })
 		c.Transitions.Add(1)
 		if p {
-			c.Outcome("observation: Ed25519 public key of wrong length panics in CheckSignatureFromKey (C01 owns it)", 1)
-			c.Set(fmt.Sprintf("observation_ed25519_public_key_len_%d", n), map[string]any{"panic": m, "site": site,
-				"public_key_hex": hex.EncodeToString(pub), "msg_hex": hex.EncodeToString(om), "sig_hex": hex.EncodeToString(osig)})
+			violPrim(c, "prim Ed25519: panic@"+site+": "+ev.MsgClass(m)+" (public key of wrong length)", primWitness{Part: "prim", Key: fmt.Sprintf("ed-a truncated/padded to %d bytes", n), Alg: int(x509.Ed25519Sig),
+				MsgHex: hex.EncodeToString(om), SigHex: hex.EncodeToString(osig), Mutation: "public key " + hex.EncodeToString(pub)})
 		} else if err == nil {
 			violPrim(c, "prim Ed25519: signature ACCEPTED under a public key of wrong length", primWitness{Part: "prim", Key: fmt.Sprintf("ed-a truncated/padded to %d bytes", n), Alg: int(x509.Ed25519Sig)})
 		} else {
